@@ -25,7 +25,7 @@ theorem toMatrix_product (a b : Fin 3 → ℝ) :
   mat_entries <;>
     simp [cas_defs, cas_real, Matrix.mul_apply, Fin.sum_univ_succ, Real.cos_add, Real.sin_add] <;> ring
 theorem toMatrix_identity : P_SO2R2.toMatrix.M_mat (P_SO2R2.identity.r_vec (α := ℝ)) = 1 := by
-  mat_entries <;> simp [cas_defs, cas_real]
+  mat_entries <;> simp [cas_defs, cas_real] <;> (try ring1)
 theorem toMatrix_inverse_left (a : Fin 3 → ℝ) :
     P_SO2R2.toMatrix.M_mat (P_SO2R2.inverse.r_vec a) * P_SO2R2.toMatrix.M_mat a = 1 := by
   have h := Real.sin_sq_add_cos_sq (a 0)
@@ -44,7 +44,7 @@ theorem toMatrix_product (a b : Fin 19 → ℝ) :
   mat_entries <;> cas_mat <;> ring
 theorem toMatrix_identity :
     P_SE3QuatR3_Dcm.toMatrix.M_mat (P_SE3QuatR3_Dcm.identity.r_vec (α := ℝ)) = 1 := by
-  mat_entries <;> simp [cas_defs, cas_real]
+  mat_entries <;> simp [cas_defs, cas_real] <;> (try ring1)
 theorem identity_left (a : Fin 19 → ℝ) :
     P_SE3QuatR3_Dcm.product.r_vec (P_SE3QuatR3_Dcm.identity.r_vec) a = a := by
   funext i; fin_cases i <;> cas_mat
@@ -82,7 +82,7 @@ theorem product_rot (a b : Fin 6 → ℝ) :
     simp [cas_defs, cas_real, rot, mrpMul, mrpNum, mrpDen, nsq, dot3, cross] <;> ring
 theorem product_tr (a b : Fin 6 → ℝ) :
     tr (P_MrpR3.product.r_vec a b) = R3.product.r_vec (tr a) (tr b) := by
-  funext i; fin_cases i <;> simp [cas_defs, cas_real, tr]
+  funext i; fin_cases i <;> simp [cas_defs, cas_real, tr] <;> (try ring1)
 theorem R3_hom (a b : Fin 3 → ℝ) :
     R3.toMatrix.M_mat (R3.product.r_vec a b) = R3.toMatrix.M_mat a * R3.toMatrix.M_mat b := by
   mat_entries <;> cas_mat <;> ring
@@ -92,7 +92,7 @@ theorem toMatrix_product (a b : Fin 6 → ℝ) (h : mrpDen (rot a) (rot b) ≠ 0
   rw [toMatrix_spec, toMatrix_spec, toMatrix_spec, diag34_mul, product_rot, product_tr,
     mrpMat_mul _ _ h, R3_hom]
 theorem toMatrix_identity : P_MrpR3.toMatrix.M_mat (P_MrpR3.identity.r_vec (α := ℝ)) = 1 := by
-  mat_entries <;> simp [cas_defs, cas_real]
+  mat_entries <;> simp [cas_defs, cas_real] <;> (try ring1)
 theorem identity_left (a : Fin 6 → ℝ) : P_MrpR3.product.r_vec (P_MrpR3.identity.r_vec) a = a := by
   funext i; fin_cases i <;> cas_mat
 theorem identity_right (a : Fin 6 → ℝ) : P_MrpR3.product.r_vec a (P_MrpR3.identity.r_vec) = a := by
